@@ -161,6 +161,37 @@ pub fn prune_events(dir: &Path, events: &[Event], live_jobs: &Set<JobId>, live_w
     read_journal(&output)
 }
 
+/// The same prune through the REAL journal thread (`start_event_streaming` / `streaming_process`): the first `flushed` records are
+/// written and flushed, the rest is still buffered by the writer when the prune request arrives - as it happens on a live server.
+pub fn prune_via_stream(dir: &Path, events: &[Event], flushed: usize, live_jobs: &Set<JobId>, live_workers: &Set<WorkerId>) -> Result<Vec<Event>, String> {
+    use hyperqueue::server::event::journal::{EventStreamMessage, start_event_streaming};
+    let path = dir.join("stream.journal");
+    let _ = std::fs::remove_file(&path);
+    let writer = JournalWriter::create_or_append(&path, None).map_err(|e| e.to_string())?;
+    let (tx, end) = start_event_streaming(writer, &path, std::time::Duration::from_secs(36_000));
+    let wait = |rx: tokio::sync::oneshot::Receiver<()>| -> Result<(), String> { futures::executor::block_on(rx).map_err(|_| "journal thread ended".to_string()) };
+    let mut run = || -> Result<(), String> {
+        for e in &events[..flushed.min(events.len())] {
+            tx.send(EventStreamMessage::Event(e.clone())).map_err(|_| "journal thread ended".to_string())?;
+        }
+        let (cb, rx) = tokio::sync::oneshot::channel();
+        tx.send(EventStreamMessage::FlushJournal(cb)).map_err(|_| "journal thread ended".to_string())?;
+        wait(rx)?;
+        for e in &events[flushed.min(events.len())..] {
+            tx.send(EventStreamMessage::Event(e.clone())).map_err(|_| "journal thread ended".to_string())?;
+        }
+        let (cb, rx) = tokio::sync::oneshot::channel();
+        tx.send(EventStreamMessage::PruneJournal { callback: cb, live_jobs: live_jobs.clone(), live_workers: live_workers.clone() })
+            .map_err(|_| "journal thread ended".to_string())?;
+        wait(rx)
+    };
+    let r = run();
+    drop(tx);
+    futures::executor::block_on(end);
+    r?;
+    read_journal(&path)
+}
+
 fn records(events: &[Event]) -> Vec<Value> {
     events.iter().map(|e| event_json(&e.payload)).collect()
 }
@@ -258,6 +289,19 @@ pub fn analyse_run(run: u64, c: &Cluster, dir: &Path, torn_offsets: usize, max_c
             });
         } else {
             prunes.push(json!({"prune_failed": true}));
+        }
+        // ... and through the real journal thread, with the last records not yet flushed when the prune is requested
+        for unflushed in [0usize, 1 + (run as usize % 3)] {
+            let k = journal.len().saturating_sub(unflushed);
+            match prune_via_stream(dir, journal, k, &lj, &lw) {
+                Ok(after) => all.push(PruneRecord {
+                    before: journal.clone(),
+                    after,
+                    live_jobs: lj.iter().map(|j| j.as_num()).collect(),
+                    live_workers: lw.iter().map(|w| w.as_num()).collect(),
+                }),
+                Err(_) => prunes.push(json!({"prune_failed": true})),
+            }
         }
     }
     for p in all {
